@@ -65,12 +65,15 @@ pub fn run(tr: &mut Tr, seed: u64, full: bool, shard: usize, nshards: usize, fra
                 a.dedup();
                 a.into_iter().filter(|x| *x < w).collect()
             };
+            // every pattern at one random alignment; the pattern subset selected by `frac'
+            // (all of them when frac = 1) at every alignment of the list
             let mut work: Vec<(u32, usize)> = vec![];
             for pat in 0..(1u32 << rb) {
                 if !in_domain(*f, pat, *rb) {
                     continue;
                 }
                 if frac > 1 && (pat as usize + seed as usize + fi) % frac != 0 {
+                    work.push((pat, rng.random_range(0..w)));
                     continue;
                 }
                 for &o in &aligns {
